@@ -6,6 +6,8 @@ def key_fn(case, obs, verdict):
     f = case.split(" ")
     if f[0] == "tr":
         return "transport:" + verdict.split(":", 1)[-1]
+    if f[0] == "hist":
+        return "hist:" + verdict.split(":", 1)[-1]
     # format + what differs from the specified request (verdict names the field)
     return "%s:%s" % (f[1] if len(f) > 1 else "?", verdict.split(":", 1)[-1])
 
@@ -15,6 +17,9 @@ def what_fn(case, obs, verdict):
     if f[0] == "tr":
         return "http.Transport built by NewTransport does not carry the TransportConfig fields under the same names"
     why = verdict.split(":", 1)[-1]
+    if f[0] == "hist":
+        return ("scripted history of request starts/ends on the real guns (warm-up + Bind as the engine does): clients / connections at the "
+                "target do not satisfy clients_ok / hist_ok (%s)" % why)
     if why == "client-sharing":
         return ("http clients of the guns the engine bound do not satisfy clients_ok: instances share a client although the shared client "
                 "is not enabled (or more pool clients than client-number), format %s" % (f[1] if len(f) > 1 else "?"))
@@ -32,7 +37,8 @@ def run(ctx):
               "1-3 pools in the run each with its own target on another port of the same host (127.0.0.1 or localhost), targets up or down "
               "while the configuration is decoded, 1% of the cases with a 1.3-1.6 s pause between the requests (const schedule, run concurrently), "
               "1-4 instances per pool, gun shared-client block absent / disabled with client-number -1..8 / enabled, target answering at once or only when all instances of the pool are in flight (rendezvous), plain or TLS target answering with a generated status and body size 0 B..1.2 MB, keep-alive on/off); `tr` cases: every field of TransportConfig / DialerConfig (reflection) read back from the built http.Transport / net.Dialer; files are delivered 1-3 times (passes), format jsonarr = jsonline entries as one JSON array, target answers after 0 or 15 ms; "
-              "non-trivial: every tr case; wire cases where the configuration defines headers and either some key "
+              "`hist` cases: scripted histories of request starts / ends (1-5 instances, random walks and in-step rounds, keep-alive on/off, shared-client block, max-idle-conns-per-host 0..3) on the real guns warmed up and bound as the engine does, compared exactly with the extracted transport model; "
+              "non-trivial: every tr and hist case; wire cases where the configuration defines headers and either some key "
               "(canonical form) is defined both by the configuration and by an entry/in-file header, or the file has more "
               "than one item; distinct = distinct case lines. Header comparison: map sorted by canonical key, value lists in "
               "order; dropped from the recorded request because net/http writes them on its own account: Content-Length "
